@@ -223,7 +223,7 @@ def run(tier, r):
             stats.setdefault("exhaustive_skipped_for_time", []).append([n, m])
             continue
         lo, hi = oc.gen_box(r, n)
-        k = _exhaustive(n, m, lo, hi, r, viol)
+        k = oc.contained(lambda: _exhaustive(n, m, lo, hi, r, viol), viol, {"mode": "exhaustive", "N": n, "m": m, "lower": lo, "upper": hi}) or 0
         explored += k
         nontriv += max(0, k - 4)
         stats["exhaustive_configs"].append([n, m, k])
@@ -244,7 +244,7 @@ def run(tier, r):
         stats["dims"][str(n)] = stats["dims"].get(str(n), 0) + 1
         stats["nm_hist"][str(n * m // 10 * 10)] = stats["nm_hist"].get(str(n * m // 10 * 10), 0) + 1
         if n == 1:
-            k = check_n1(ev, lo, hi, r, ctx, viol)
+            k = oc.contained(lambda: check_n1(ev, lo, hi, r, ctx, viol), viol, ctx) or 4
             explored += k
             nontriv += k - 4
             stats["n1_cases"] += k
@@ -253,14 +253,14 @@ def run(tier, r):
         xs, ys = [], []
         for _ in range(5):
             x = gen_x(r, n, m)
-            i = check_x(ev, n, m, x, ctx, viol)
+            i = oc.contained(lambda: check_x(ev, n, m, x, ctx, viol), viol, ctx, x=x.hex()) or 0
             explored += 1
             nontriv += 1 if i != 0 else 0
             stats["x_cases"] += 1
             xs.append(x.hex())
         for _ in range(5):
             y = gen_y(r, g, n, m)
-            nt = check_y(ev, g, n, m, y, ctx, viol)
+            nt = oc.contained(lambda: check_y(ev, g, n, m, y, ctx, viol), viol, ctx, y=list(y))
             explored += 1
             nontriv += 1 if nt else 0
             stats["y_cases"] += 1
@@ -294,8 +294,8 @@ def replay(case):
         xi = float(ev.GetInverseImage(np.array(case["y"], dtype=np.double)))
         return {"reproduced": xi.hex() != case["want"], "detail": {"inverse": xi.hex(), "want": case["want"]}}
     if "x" in case:
-        check_x(ev, n, m, float.fromhex(case["x"]), ctx, viol)
+        oc.contained(lambda: check_x(ev, n, m, float.fromhex(case["x"]), ctx, viol), viol, ctx, x=case["x"])
     elif "y" in case:
-        check_y(ev, g, n, m, case["y"], ctx, viol)
+        oc.contained(lambda: check_y(ev, g, n, m, case["y"], ctx, viol), viol, ctx, y=case["y"])
     same = [v for v in viol if v["what"] == case.get("what")]
     return {"reproduced": bool(same), "detail": (same or viol)[:2]}
